@@ -6,4 +6,5 @@ import Hyeong.Props.C11
 #print axioms HyE.C11.state_command
 #print axioms HyE.C11.previous_exact
 #print axioms HyE.C11.run_stops_first_bp
+#print axioms HyE.C11.run_to_first_bp
 #print axioms HyE.C11.output_once
